@@ -412,15 +412,17 @@ pub fn suite_http(dir: &str, seed: u64, thorough: bool, st: &mut Stats) {
 /// only when `poll_complete` returns Ready (which it does after `seek_pending` Pending results); a read issued
 /// before that still sees the old position, and a second `start_seek` in between is refused -- as
 /// `tokio::io::BufReader` and `tokio::fs::File` do.
-pub struct ScriptFile { pub data: Vec<u8>, pub pos: u64, pub sched: Vec<Ev>, pub idx: usize, pub seek_pending: Vec<u8>, pub sidx: usize, pub target: Option<(u64, u8)> }
+pub struct ScriptFile { pub data: Vec<u8>, pub pos: u64, pub sched: Vec<Ev>, pub idx: usize, pub seek_pending: Vec<u8>, pub sidx: usize, pub target: Option<(u64, u8)>, pub fail_read: Option<usize>, pub reads: usize }
 
 impl ScriptFile {
-    pub fn new(data: Vec<u8>, sched: Vec<Ev>, seek_pending: Vec<u8>) -> Self { ScriptFile { data, pos: 0, sched, idx: 0, seek_pending, sidx: 0, target: None } }
+    pub fn new(data: Vec<u8>, sched: Vec<Ev>, seek_pending: Vec<u8>) -> Self { ScriptFile { data, pos: 0, sched, idx: 0, seek_pending, sidx: 0, target: None, fail_read: None, reads: 0 } }
 }
 
 impl AsyncRead for ScriptFile {
     fn poll_read(mut self: Pin<&mut Self>, cx: &mut Context<'_>, buf: &mut ReadBuf<'_>) -> Poll<std::io::Result<()>> {
         let me = &mut *self;
+        me.reads += 1;
+        if me.fail_read == Some(me.reads) { return Poll::Ready(Err(std::io::Error::new(std::io::ErrorKind::Other, "injected read error"))); }
         let pos = (me.pos as usize).min(me.data.len());
         let left = me.data.len() - pos;
         let want = if me.idx < me.sched.len() {
@@ -498,6 +500,43 @@ pub fn suite_ioread(dir: &str, seed: u64, thorough: bool, st: &mut Stats) {
             }
         }
         out.push(&line, &items_str(&items));
+    }
+    // a read of the underlying file fails: the chunks delivered before are right, the stream ends with that error
+    for _ in 0..(n / 6) {
+        let flen = rng.range(60, 300) as usize;
+        let file: Vec<u8> = (0..flen).map(|_| rng.next() as u8).collect();
+        let ranges = gen_ranges(&mut rng, flen);
+        if ranges.is_empty() { continue; }
+        let k = rng.range(1, 12) as usize;
+        let (f2, r2) = (file.clone(), ranges.clone());
+        let sched: Vec<Ev> = gen_sched(&mut rng, 300).into_iter().take(100).collect();
+        let r = std::panic::catch_unwind(move || {
+            let rt = tokio::runtime::Builder::new_current_thread().build().unwrap();
+            rt.block_on(async move {
+                let mut sf = ScriptFile::new(f2, sched, vec![]);
+                sf.fail_read = Some(k);
+                let mut reader = IoReader::new(sf);
+                let mut stt = reader.read_chunks(r2.iter().map(|(o, s)| ChunkOffset::new(*o, *s)).collect());
+                let mut items: Vec<Result<Vec<u8>, String>> = vec![];
+                while let Some(it) = stt.next().await {
+                    match it { Ok(b) => items.push(Ok(b.to_vec())), Err(e) => { items.push(Err(if e.kind() == std::io::ErrorKind::UnexpectedEof { "EOF".into() } else { "IO".into() })); break; } }
+                    if items.len() > 1000 { break; }
+                }
+                items
+            })
+        });
+        let items = r.unwrap_or_else(|_| vec![Err("PANIC".to_string())]);
+        let line = format!("ioread-fail {} {} read#{}", hex(&file), ranges.iter().map(|(o, s)| format!("{}+{}", o, s)).collect::<Vec<_>>().join(","), k);
+        st.evaluations += 1;
+        st.oracle_checks += 1;
+        st.count(&format!("ioread/read-error/{}", if matches!(items.last(), Some(Err(_))) { "reported" } else { "not-reached" }));
+        for (i, it) in items.iter().enumerate() {
+            match it {
+                Ok(d) => { let (o, sz) = ranges[i.min(ranges.len() - 1)]; if i >= ranges.len() || d[..] != file[o as usize..o as usize + sz] { st.violation("C08", "local reader with a failing read delivered a wrong chunk", &line); break; } }
+                Err(e) => { if e == "PANIC" { st.violation("C15", "local reader panicked on a read error", &line); } else if i + 1 != items.len() { st.violation("C08", "items after an error", &line); } }
+            }
+        }
+        if !matches!(items.last(), Some(Err(_))) && items.len() != ranges.len() { st.violation("C08", "local reader stream ended early without an error", &line); }
     }
     // one IoReader used several times (as Archive does: header reads, then a chunk stream): a read_at and / or a
     // partly consumed stream first, then a stream that starts at offset 0 or anywhere else -- the position left by
